@@ -2,7 +2,7 @@
 From Coq Require Import Reals List.
 From BLE Require Import Model.IVector Proofs.IVectorR Proofs.IVAffine.
 From BLE Require Import Model.FA Proofs.FAEnroll Proofs.FAAffine.
-From BLE Require Import Num.InstR Model.GMM Model.KMeans Model.LinScore Proofs.RLemmas Proofs.GMMLik Proofs.GMMStats Proofs.KMeansR Proofs.LinScoreR Proofs.Affine Proofs.GMMFit Proofs.KMeansFit Proofs.AffineStop.
+From BLE Require Import Num.InstR Model.GMM Model.KMeans Model.LinScore Proofs.RLemmas Proofs.GMMLik Proofs.GMMStats Proofs.KMeansR Proofs.LinScoreR Proofs.Affine Proofs.GMMFit Proofs.KMeansFit Proofs.AffineStop Proofs.AffineRun.
 Import ListNotations.
 Open Scope R_scope.
 
@@ -139,3 +139,17 @@ Theorem C15_client_mean_follows_the_features (C D rU rV : nat) (a b : list R) (u
   = FR.V.map3 (fun Aj Bj x => Aj * x + Bj) (sup C a) (sup C b) (FR.client_mean u F y z).
 Proof. exact (client_mean_affine C D rU rV a b u F y z). Qed.
 Print Assumptions C15_client_mean_follows_the_features.
+
+(* Whole ML training runs: started from the transformed model (floors a^2*floor) on the transformed data, every iteration yields
+   the transformed model of the original run and reports the original value minus sum ln|a|; with an iteration cap and no
+   convergence threshold the trained GMM therefore has means a*mu+b, variances a^2*var and unchanged weights.  Proviso as in the
+   property: along the original run every model is a proper mixture and no floor is active (run_ok); means and variances updated. *)
+Theorem C15_ml_training_run_equivariant (D : nat) (a b : list R) (eps : R) (uw : bool) (cap : nat) (X : list (list R))
+    (mc mc' : MR.machine) (n : nat) (hist : list R) :
+  scale_ok D a b -> X <> [] -> GMMStats.rows_ok D X -> 0 < eps ->
+  MR.fit cap MR.ML (sw_mv uw) eps None D [X] mc = Some (mc', n, hist) ->
+  run_ok D eps uw X n mc ->
+  MR.fit cap MR.ML (sw_mv uw) eps None D [map (aff a b) X] (aff_machine a b mc)
+  = Some (aff_machine a b mc', n, map (fun l => l - sumlnabs a) hist).
+Proof. exact (ml_fit_affine_no_threshold D a b eps uw cap X mc mc' n hist). Qed.
+Print Assumptions C15_ml_training_run_equivariant.
